@@ -453,7 +453,7 @@ class MinMaxAndCount(base.MergeableMetric):
   axis: int | None = None
   _count: int = 0
   _min: int = np.inf
-  _max: int = 0
+  _max: int = -np.inf
 
   def as_agg_fn(self) -> base.AggregateFn:
     return base.as_agg_fn(self.__class__, self.batch_score_fn, self.axis)
@@ -490,8 +490,9 @@ class MinMaxAndCount(base.MergeableMetric):
 
   def merge(self, other: 'MinMaxAndCount') -> 'MinMaxAndCount':
     self._count += other.count
-    self._min = np.min((self._min, other.min), axis=self.axis)
-    self._max = np.max((self._max, other.max), axis=self.axis)
+    # Element-wise across the two accumulators, whatever the axis of `add`.
+    self._min = np.minimum(self._min, other.min)
+    self._max = np.maximum(self._max, other.max)
 
     return self
 
